@@ -201,6 +201,7 @@ type GateLine struct {
 	ID       int             `json:"id"`
 	Scenario string          `json:"scenario"`
 	Scheme   int             `json:"scheme"`
+	Ballast  bool            `json:"ballast"`
 	D        json.RawMessage `json:"d"`
 	M        json.RawMessage `json:"m"`
 	Chain    int             `json:"chain"`   // hash id of Deployment.Version returned by the chain query
@@ -283,7 +284,7 @@ func (e *gateEnv) RunGate(id int, p *Pair, rawD, rawM json.RawMessage, s int, ha
 		if herr != nil {
 			return fmt.Errorf("gate scenario %q of pair %d: %v", sc.name, id, herr)
 		}
-		l := GateLine{Kind: "gate", ID: id, Scenario: sc.name, Scheme: s, D: rawD, M: rawM,
+		l := GateLine{Kind: "gate", ID: id, Scenario: sc.name, Scheme: s, Ballast: Ballast(s), D: rawD, M: rawM,
 			Chain: hashes.id(pick(sc.chain)), Updates: upIDs, Sub: hashes.id(pick(sc.sub)), SubIsAlt: sc.sub == "alt",
 			Accepted: res == nil}
 		if res != nil {
